@@ -185,8 +185,22 @@ func TestC16Rapid(t *testing.T) {
 		}
 		if c.LastDir == "existing" {
 			if rapid.IntRange(0, 2).Draw(t, "preTarget") == 0 && writable {
-				_ = os.WriteFile(target, otherSpec("old-target"), 0o644)
-				c.Pre = append(c.Pre, "file-at-target")
+				// what is at the target name already: a regular file, or a symbolic link (to a Spec outside the Spec
+				// directories, to the Spec in the lower directory, to nothing): the write replaces the link itself
+				switch kind := rapid.SampledFrom([]string{"file", "file", "link-to-bystander", "link-to-lower", "dangling-link"}).Draw(t, "preTargetKind"); kind {
+				case "file":
+					_ = os.WriteFile(target, otherSpec("old-target"), 0o644)
+					c.Pre = append(c.Pre, "file-at-target")
+				case "link-to-bystander":
+					_ = os.Symlink(filepath.Join(root, "bystander.json"), target)
+					c.Pre = append(c.Pre, "symlink-at-target")
+				case "link-to-lower":
+					_ = os.Symlink(filepath.Join(dirs[0], "lower.json"), target) // dangling unless that file was drawn
+					c.Pre = append(c.Pre, "symlink-at-target")
+				default:
+					_ = os.Symlink(filepath.Join(root, "no-such-target"), target)
+					c.Pre = append(c.Pre, "symlink-at-target")
+				}
 			}
 			if rapid.IntRange(0, 3).Draw(t, "preSameStem") == 0 && writable {
 				stem := strings.TrimSuffix(strings.TrimSuffix(target, ".yaml"), ".json")
